@@ -6,6 +6,8 @@ BASE = "cd /repo && GOFLAGS=-mod=mod GOPROXY=off go test -vet=off -count=1 -time
 claimed = {
  "C01": ("who-may-call + CFG path rules + lock-region dataflow over go/ssa", "§3 C01",
    "Decides, exhaustively over the source, the structural necessary conditions of commit-frontier safety: single guarded input-notification site, constant-false notify flag at every non-acknowledging finalize call, acknowledgement sites, send-before-commit on all worker paths, the sequenced commit region (wait loop / +1 under lock / broadcast), retry-loop exits, detach guard, single sequencer. It does not decide that a concrete schedule respects the frontier."),
+ "C02": ("who-may-call + typestate/CFG path rules + interprocedural lock-region dataflow over go/ssa", "§3 C02",
+   "Decides structural necessary conditions of in-order exactly-once commits: single guarded attach site with pop-under-lock, the stream-queue lock table at every access, FIFO batch fill under the fill lock and ascending commit loop, exactly-one-finalize shape of every ActionResult case, hold<->propagate typestate, FIFO enqueue/dequeue shape, single sequencer. It does not decide the order or uniqueness of a concrete commit history."),
 }
 NA = {
  "C06": "the claim is an equation between runtime byte positions (offset = start + scanned) for every content, buffer size and append split; no sound static argument in reach bounds it, and the only structural proxies are matches on one loop's arithmetic (a frozen fragment)",
